@@ -141,8 +141,9 @@ def handleRun (args : List String) : String :=
            `ok` symbols with CFI at the walked address, `on` symbols without, `nf`, `pe`
     file   locate_file of provider p for key k and kind fk: `ok` | `nf`
     x:m    as x:j, on a multi-thread runtime (only the final summary is comparable)
-  per poll `<t>[<events>|<answers>]<req>/<proc>,..m<req>/<proc>w<bits>f<bits>` (one req/proc pair per
-  provider, then MultiSymbolProvider::pending_stats), then
+  per poll `<t>[<events>|<answers>]<req>/<proc>,..m<req>/<proc>[S<p>:<stats>..]w<bits>f<bits>` (one req/proc
+  pair per provider, then MultiSymbolProvider::pending_stats, then the statistics map of every provider
+  whose map changed during the poll), then
   ` final fin= pend= m= calls: fcalls: outs: stats: mstats:`.
 -/
 
@@ -277,17 +278,6 @@ def pendStr (rc : RCfg) (log : List Event) : String :=
   joinWith "," ((List.range rc.P).map fun p => s!"{reqCount rc p log}/{procCount rc p log}") ++
     (let m := multiPending rc log; s!"m{m.1}/{m.2}")
 
-/-- the answers task `t` has received so far (without providers a request performs no lookup at all:
-    its answer arrives when the task first runs) -/
-def answers (rc : RCfg) (t : Nat) (s : GState) : List ROut :=
-  if rc.P = 0 && !gisFin s t then [] else outcomes rc t s.log
-
-def rPollEntry (rc : RCfg) (t : Nat) (before after : GState) : String :=
-  let evs := after.log.drop before.log.length
-  let outs := (answers rc t after).drop (answers rc t before).length
-  s!"{t}[" ++ joinWith "," (evs.map (rEventStr rc)) ++ "|" ++ joinWith "," (outs.map ROut.toStr) ++ "]" ++
-    pendStr rc after.log ++ "w" ++ gbits rc (fun u => (after.task u).woken) ++ "f" ++ gbits rc (gisFin after)
-
 def leafStr : Option Nat → String
   | none => "-"
   | some l => toString l
@@ -299,6 +289,21 @@ def allLeaves (rc : RCfg) : List (Option Nat) :=
 
 def statsStr (rc : RCfg) (get : Option Nat → Option Res) : String :=
   joinWith "," ((allLeaves rc).filterMap fun l => (get l).map fun r => leafStr l ++ "=" ++ r.toStr)
+
+/-- the answers task `t` has received so far (without providers a request performs no lookup at all:
+    its answer arrives when the task first runs) -/
+def answers (rc : RCfg) (t : Nat) (s : GState) : List ROut :=
+  if rc.P = 0 && !gisFin s t then [] else outcomes rc t s.log
+
+def rPollEntry (rc : RCfg) (t : Nat) (before after : GState) : String :=
+  let evs := after.log.drop before.log.length
+  let outs := (answers rc t after).drop (answers rc t before).length
+  let statsDelta := String.join ((List.range rc.P).map fun p =>
+    let b := statsStr rc (statGet (statWrites rc p before.log))
+    let a := statsStr rc (statGet (statWrites rc p after.log))
+    if a == b then "" else s!"S{p}:{a}")
+  s!"{t}[" ++ joinWith "," (evs.map (rEventStr rc)) ++ "|" ++ joinWith "," (outs.map ROut.toStr) ++ "]" ++
+    pendStr rc after.log ++ statsDelta ++ "w" ++ gbits rc (fun u => (after.task u).woken) ++ "f" ++ gbits rc (gisFin after)
 
 def rSummary (rc : RCfg) (s : GState) : String :=
   let keys := (List.range rc.M).filter fun k => rc.key k == k
